@@ -16,7 +16,7 @@ def E(): return Engine.cur
 
 SYMTYPES = (T, Ext)
 KIND_RANK = {'b': 0, 'i': 1, 'f': 2}
-CFG = {'lazy_where': True, 'concretize_index': False, 'argsort_declarative': True}
+CFG = {'lazy_where': False, 'concretize_index': False, 'argsort_declarative': True}
 
 # ------------------------------------------------------------------ conversions
 def plain(x): return x.view(np.ndarray) if isinstance(x, SymArray) else x
@@ -455,11 +455,19 @@ class FlatView:
     def __init__(s, a): s.a = a
     def _flat(s):
         p = plain(s.a)
-        if not p.flags['C_CONTIGUOUS']: raise Unsupported('flat on non-contiguous')
+        if not p.flags['C_CONTIGUOUS']:
+            out = np.empty(p.size, dtype=object)
+            for t, v in enumerate(p.flat): out[t] = v
+            return S(out, getattr(s.a, 'dk', 'f'))           # a copy: reads only
         return S(p.reshape(-1), getattr(s.a, 'dk', 'f'))
     def _flat_plain(s): return plain(s._flat())
     def __getitem__(s, k): return s._flat()[k]
-    def __setitem__(s, k, v): s._flat()[k] = v
+    def __setitem__(s, k, v):
+        p = plain(s.a)
+        if p.flags['C_CONTIGUOUS']: s._flat()[k] = v; return
+        if has_sym_index(k): raise Unsupported('flat store with symbolic index on a non-contiguous array')
+        f = s._flat(); f[k] = v
+        for t, idx in enumerate(np.ndindex(p.shape)): p[idx] = plain(f)[t]
     def __iter__(s): return iter(s._flat_plain())
     def __len__(s): return s.a.size
     def __array__(s, dtype=None, copy=None): return s._flat_plain()
@@ -959,7 +967,28 @@ PASS = {'transpose', 'reshape', 'ravel', 'shape', 'ndim', 'atleast_2d', 'atleast
         'diagonal', 'flip', 'swapaxes', 'broadcast_to', 'fliplr', 'flipud', 'roll', 'rot90', 'take', 'array_split', 'split'}
 
 # ------------------------------------------------------------------ np proxy (module global `np` of every bct module)
+class _Masked:
+    """minimal np.ma.masked_where result: reductions over the unmasked entries"""
+    def __init__(self, mask, data): self.mask = to_obj(mask); self.data = to_obj(data)
+    def _red(self, f, axis):
+        m = np.array([bool(sc.truth(v)) for v in self.mask.flat], dtype=bool).reshape(self.mask.shape)     # forks on symbolic bits
+        d = self.data
+        def one(vals, ms):
+            keep = [v for v, mm in zip(vals, ms) if not mm]
+            if not keep: return Z(10 ** 20)          # numpy: fully masked -> fill_value when converted to ndarray
+            return functools.reduce(f, keep)
+        if axis is None: return one(list(d.flat), list(m.flat))
+        if d.ndim != 2: raise Unsupported('masked reduce nd')
+        rows = (d, m) if axis == 1 else (d.T, m.T)
+        return S(np.array([one(list(r), list(mr)) for r, mr in zip(*rows)], dtype=object), 'f')
+    def max(self, axis=None, **k): return self._red(sc.smax, axis)
+    def min(self, axis=None, **k): return self._red(sc.smin, axis)
+    def sum(self, axis=None, **k): return self._red(sc.add, axis)
+    def __array__(self, dtype=None, copy=None): return plain(S(self.data))
+
 class _MaProxy:
+    def masked_where(self, cond, a, copy=True): return _Masked(cond, a)
+    def masked_array(self, a, mask=False, **k): return _Masked(mask if mask is not False else np.zeros(np.shape(a), dtype=bool), a)
     def __getattr__(self, name): raise Unsupported('np.ma.' + name)
 
 class NpProxy:
@@ -991,6 +1020,7 @@ class NpProxy:
     def linspace(self, *a, **k): return S(np.linspace(*a, **k))
     def array(self, x, dtype=None, copy=True, **k):
         if isinstance(x, (MaskedVec, LazyRows, LazyIdx)): x = x._conc()
+        if isinstance(x, _Masked): x = S(x.data)
         dk = dtype_kind(dtype) if dtype is not None else kind_of(x)
         if isinstance(x, (list, tuple)) and any(isinstance(v, (MaskedVec, LazyRows, LazyIdx)) for v in x):
             x = [v._conc() if isinstance(v, (MaskedVec, LazyRows, LazyIdx)) else v for v in x]
@@ -1002,6 +1032,7 @@ class NpProxy:
         return self.array(x, dtype)
     def round(self, x, decimals=0, *a):
         if isinstance(x, (int, float, np.floating, np.integer)) and not isinstance(x, bool): return np.round(x, decimals)
+        if isinstance(x, Fraction) and decimals == 0: return np.float64(round(x))     # half-to-even, like numpy
         return f_round(x, decimals)
     around = round
     def ceil(self, x):
@@ -1095,7 +1126,11 @@ class NpProxy:
     def float64(self, x): return x if isinstance(x, SYMTYPES) else np.float64(x)
     def int64(self, x): return sc.trunc(x) if isinstance(x, SYMTYPES) else np.int64(x)
 
-CORRCOEF = [lambda x, y: _unsup('np.corrcoef')]
+def _default_corrcoef(x, y):
+    # contract stub: a symmetric 2x2 matrix with unit diagonal and an unknown coefficient in [-1, 1]
+    r = E().fresh('corrcoef', 'R', lo=-1, hi=1)
+    return S(np.array([[1, r], [r, 1]], dtype=object), 'f')
+CORRCOEF = [_default_corrcoef]
 
 def _sa(x): return x if _scalar_like(x) else (x if isinstance(x, SymArray) else S(x))
 def _scalar_like(x): return isinstance(x, SYMTYPES + (bool, int, float, Fraction, np.number, np.bool_))
